@@ -123,8 +123,13 @@ def frame_rows(prompt_w, glyphs, W):
 
 def project(cs, evs):
     out = [({"ev": "reset", "w": cs["w"], "h": cs["h"]}, {"ev": "reset"})]
+    same = False      # the next wait belongs to the same edit as the previous one and nothing moved the frame on purpose
     for e in evs:
         ev = e["ev"]
+        if ev == "session":
+            same = False
+        elif ev == "read" and 0x0c in e.get("bytes", []):
+            same = False      # clear-screen
         if ev == "out":
             out.append(({"ev": "out", "tok": e["tok"], "cells": e.get("cells") or [], "n": e.get("n", 0), "a": e.get("a", 0), "b": e.get("b", 0)}, e))
         elif ev == "wait":
@@ -137,8 +142,9 @@ def project(cs, evs):
                 break
             ghost = e.get("local", "") in ("", None) and not e.get("minibuf")
             out.append(({"ev": "wait", "prompt": [[x[0], x[1]] for x in e["pglyphs"]], "buf": [[x[0], x[1]] for x in g],
-                         "curidx": cur_indices(g, e["cur"]), "ghost": bool(ghost)},
+                         "curidx": cur_indices(g, e["cur"]), "ghost": bool(ghost), "sametop": same},
                         {k: v for k, v in e.items() if k not in ("cells",)}))
+            same = True
         elif ev in ("panic", "hang", "died", "linger"):
             out.append(({"ev": ev}, {k: v for k, v in e.items() if k != "stack"}))
     # output after the last examined wait is not needed
